@@ -1,7 +1,7 @@
 //! Static support code of the generated crate: value glue (`Val` <-> Rust values) and the protocol operations, each
 //! calling the REAL trait methods of `ethercrab-wire` on a generated (or primitive) type.
 use crate::common::{hex, parse_val, unhex, Val};
-use ethercrab_wire::{EtherCrabWireRead, EtherCrabWireWrite, EtherCrabWireWriteSized, WireError};
+use ethercrab_wire::{EtherCrabWireRead, EtherCrabWireSized, EtherCrabWireWrite, EtherCrabWireWriteSized, WireError};
 
 pub trait Glue: Sized {
     fn from_val(v: &Val) -> Option<Self>;
@@ -82,6 +82,36 @@ impl<T: Glue, const N: usize> Glue for [T; N] {
     }
 }
 
+/// `heapless::Vec<T, N>`: the sequence of its elements.
+impl<T: Glue, const N: usize> Glue for heapless::Vec<T, N> {
+    fn from_val(v: &Val) -> Option<Self> {
+        let Val::Seq(vs) = v else { return None };
+        if vs.len() > N {
+            return None;
+        }
+        let mut out = heapless::Vec::new();
+        for x in vs {
+            out.push(T::from_val(x)?).ok()?;
+        }
+        Some(out)
+    }
+    fn to_val(&self) -> Val {
+        Val::Seq(self.iter().map(|x| x.to_val()).collect())
+    }
+}
+
+/// `heapless::String<N>`: the sequence of its bytes.
+impl<const N: usize> Glue for heapless::String<N> {
+    fn from_val(v: &Val) -> Option<Self> {
+        let Val::Seq(vs) = v else { return None };
+        let bytes: Vec<u8> = vs.iter().map(u8::from_val).collect::<Option<Vec<u8>>>()?;
+        heapless::String::try_from(std::str::from_utf8(&bytes).ok()?).ok()
+    }
+    fn to_val(&self) -> Val {
+        Val::Seq(self.as_bytes().iter().map(|b| Val::Int(*b as i128)).collect())
+    }
+}
+
 macro_rules! glue_tuple {
     ($($len:tt => ($($n:tt $name:ident)+))+) => {$(
         impl<$($name: Glue),+> Glue for ($($name,)+) {
@@ -101,6 +131,16 @@ glue_tuple! {
     4 => (0 T0 1 T1 2 T2 3 T3)
     5 => (0 T0 1 T1 2 T2 3 T3 4 T4)
     6 => (0 T0 1 T1 2 T2 3 T3 4 T4 5 T5)
+    7 => (0 T0 1 T1 2 T2 3 T3 4 T4 5 T5 6 T6)
+    8 => (0 T0 1 T1 2 T2 3 T3 4 T4 5 T5 6 T6 7 T7)
+    9 => (0 T0 1 T1 2 T2 3 T3 4 T4 5 T5 6 T6 7 T7 8 T8)
+    10 => (0 T0 1 T1 2 T2 3 T3 4 T4 5 T5 6 T6 7 T7 8 T8 9 T9)
+    11 => (0 T0 1 T1 2 T2 3 T3 4 T4 5 T5 6 T6 7 T7 8 T8 9 T9 10 T10)
+    12 => (0 T0 1 T1 2 T2 3 T3 4 T4 5 T5 6 T6 7 T7 8 T8 9 T9 10 T10 11 T11)
+    13 => (0 T0 1 T1 2 T2 3 T3 4 T4 5 T5 6 T6 7 T7 8 T8 9 T9 10 T10 11 T11 12 T12)
+    14 => (0 T0 1 T1 2 T2 3 T3 4 T4 5 T5 6 T6 7 T7 8 T8 9 T9 10 T10 11 T11 12 T12 13 T13)
+    15 => (0 T0 1 T1 2 T2 3 T3 4 T4 5 T5 6 T6 7 T7 8 T8 9 T9 10 T10 11 T11 12 T12 13 T13 14 T14)
+    16 => (0 T0 1 T1 2 T2 3 T3 4 T4 5 T5 6 T6 7 T7 8 T8 9 T9 10 T10 11 T11 12 T12 13 T13 14 T14 15 T15)
 }
 
 /// `#[wire(skip)]` field: `d` = `Default::default()`, anything else the value itself (pack must ignore it).
@@ -169,6 +209,11 @@ pub fn packun<T: Glue + EtherCrabWireWrite>(a: &[&str]) -> String {
     let Some(mut dst) = unhex(a[1]) else { return "bad-hex".into() };
     let n = v.pack_to_slice_unchecked(&mut dst).len();
     format!("ok:{}:{}", hex(&dst), n)
+}
+
+/// `buflen`: `EtherCrabWireSized::buffer().len()` and `PACKED_LEN`.
+pub fn buflen<T: EtherCrabWireSized>() -> String {
+    format!("ok:{}:{}", T::buffer().as_ref().len(), T::PACKED_LEN)
 }
 
 /// `unpack <hex>`: `EtherCrabWireRead::unpack_from_slice`.
